@@ -40,13 +40,25 @@ fn bgp_try_parse_framing() {
     let hdr_len = if len >= 19 { be16(&data, 16) } else { 0 };
     match r {
         Ok(None) => {
-            assert!(src.len() == len, "C03.bgp.need_more_bytes_leaves_buffer_untouched");
-            assert!(len < 19 || (hdr_len >= 19 && hdr_len <= max && len < hdr_len), "C03.bgp.need_more_bytes_only_if_incomplete");
+            assert!(
+                src.len() == len,
+                "C03.bgp.need_more_bytes_leaves_buffer_untouched"
+            );
+            assert!(
+                len < 19 || (hdr_len >= 19 && hdr_len <= max && len < hdr_len),
+                "C03.bgp.need_more_bytes_only_if_incomplete"
+            );
             kani::cover!(len >= 19, "incomplete body");
         }
         Ok(Some(m)) => {
-            assert!(len >= 19 && hdr_len >= 19 && hdr_len <= max && hdr_len <= len, "C03.bgp.message_only_from_complete_frame");
-            assert!(src.len() == len - hdr_len, "C03.bgp.complete_frame_consumed_exactly");
+            assert!(
+                len >= 19 && hdr_len >= 19 && hdr_len <= max && hdr_len <= len,
+                "C03.bgp.message_only_from_complete_frame"
+            );
+            assert!(
+                src.len() == len - hdr_len,
+                "C03.bgp.complete_frame_consumed_exactly"
+            );
             core::mem::forget(m);
             kani::cover!(true, "a frame is consumed");
         }
@@ -54,9 +66,15 @@ fn bgp_try_parse_framing() {
             // either the framing error, or the body parser's error after the frame was consumed
             assert!(len >= 19, "C03.bgp.no_error_before_header");
             if src.len() == len {
-                assert!(hdr_len < 19 || hdr_len > max, "C03.bgp.bad_length_only_if_out_of_range");
+                assert!(
+                    hdr_len < 19 || hdr_len > max,
+                    "C03.bgp.bad_length_only_if_out_of_range"
+                );
             } else {
-                assert!(src.len() == len - hdr_len, "C03.bgp.rejected_frame_consumed_exactly");
+                assert!(
+                    src.len() == len - hdr_len,
+                    "C03.bgp.rejected_frame_consumed_exactly"
+                );
             }
             core::mem::forget(e);
             kani::cover!(src.len() == len, "bad length rejected");
@@ -81,14 +99,32 @@ fn c05_canonical_flags_table() {
     let code: u8 = kani::any();
     let expect: Option<u8> = if code == 1 || code == 2 || code == 3 || code == 5 || code == 6 {
         Some(0x40)
-    } else if code == 4 || code == 9 || code == 10 || code == 14 || code == 15 || code == 26 || code == 29 {
+    } else if code == 4
+        || code == 9
+        || code == 10
+        || code == 14
+        || code == 15
+        || code == 26
+        || code == 29
+    {
         Some(0x80)
-    } else if code == 7 || code == 8 || code == 16 || code == 17 || code == 18 || code == 32 || code == 40 || code == 23 {
+    } else if code == 7
+        || code == 8
+        || code == 16
+        || code == 17
+        || code == 18
+        || code == 32
+        || code == 40
+        || code == 23
+    {
         Some(0xC0)
     } else {
         None
     };
-    assert!(Attribute::canonical_flags(code) == expect, "C05.canonical_flags_is_the_rfc_flag_table");
+    assert!(
+        Attribute::canonical_flags(code) == expect,
+        "C05.canonical_flags_is_the_rfc_flag_table"
+    );
     kani::cover!(expect.is_some(), "known code");
     kani::cover!(expect.is_none(), "unknown code");
 }
@@ -107,9 +143,16 @@ fn c16_ipnet_contains_v4() {
     let addr: u32 = kani::any();
     kani::assume(mask <= 32);
     let shift = 32 - mask as u32;
-    let hostmask: u32 = if mask == 0 { u32::MAX } else { (1u64 << shift) as u32 - 1 };
+    let hostmask: u32 = if mask == 0 {
+        u32::MAX
+    } else {
+        (1u64 << shift) as u32 - 1
+    };
     kani::assume(net & hostmask == 0);
-    let n = IpNet::V4(Ipv4Net { addr: Ipv4Addr::from(net), mask });
+    let n = IpNet::V4(Ipv4Net {
+        addr: Ipv4Addr::from(net),
+        mask,
+    });
     let r = n.contains(&IpAddr::V4(Ipv4Addr::from(addr)));
     let expect = mask == 0 || (addr >> shift) == (net >> shift);
     assert!(r == expect, "C16.prefix_contains_iff_leading_bits_equal");
@@ -117,7 +160,10 @@ fn c16_ipnet_contains_v4() {
     kani::cover!(!r, "not contained");
     // other family is never contained
     let six: u128 = kani::any();
-    assert!(!n.contains(&IpAddr::V6(Ipv6Addr::from(six))), "C16.prefix_never_contains_other_family");
+    assert!(
+        !n.contains(&IpAddr::V6(Ipv6Addr::from(six))),
+        "C16.prefix_never_contains_other_family"
+    );
     kani::cover!(true, "harness end reachable");
 }
 
@@ -130,11 +176,22 @@ fn c16_ipnet_contains_v6() {
     let addr: u128 = kani::any();
     kani::assume(mask <= 128);
     let shift = 128 - mask as u32;
-    let hostmask: u128 = if mask == 0 { u128::MAX } else if mask == 128 { 0 } else { (1u128 << shift) - 1 };
+    let hostmask: u128 = if mask == 0 {
+        u128::MAX
+    } else if mask == 128 {
+        0
+    } else {
+        (1u128 << shift) - 1
+    };
     kani::assume(net & hostmask == 0);
-    let n = IpNet::V6(Ipv6Net { addr: Ipv6Addr::from(net), mask });
+    let n = IpNet::V6(Ipv6Net {
+        addr: Ipv6Addr::from(net),
+        mask,
+    });
     let r = n.contains(&IpAddr::V6(Ipv6Addr::from(addr)));
-    let expect = mask == 0 || (mask == 128 && addr == net) || (mask < 128 && (addr >> shift) == (net >> shift));
+    let expect = mask == 0
+        || (mask == 128 && addr == net)
+        || (mask < 128 && (addr >> shift) == (net >> shift));
     assert!(r == expect, "C16.prefix_contains_iff_leading_bits_equal");
     kani::cover!(r && mask > 0 && mask < 128, "contained");
     kani::cover!(!r, "not contained");
